@@ -363,10 +363,11 @@ func (f *Func) reachTarget(
 			}
 		}
 
-		// If we're skipping because we have this value already, then
-		// note that we're using this input in the input set.
+		// If we're skipping because we have this value already, there
+		// is nothing to reach. A typed argument only has a value here if
+		// it was produced while walking an earlier path (or chosen as an
+		// input, which was recorded then), so it is not a new input.
 		if skip {
-			state.InputSet[graph.VertexID(out)] = out
 			continue
 		}
 
